@@ -14,6 +14,7 @@ import CR.Model.Validate
 import CR.Model.Batch
 import CR.Model.Report
 import CR.Model.Heap
+import CR.Model.Text
 
 open Lean CR
 
@@ -389,6 +390,44 @@ def opSolveSeq {α : Type} (c : Codec α) [Add α] [Sub α] [Mul α] [Div α] [N
   let (outs, post) := go modes.toList g.tl #[]
   pure (Json.mkObj [("outcome", "ok"), ("results", Json.arr outs), ("post", nodesJson c post)])
 
+namespace CR.Drv
+open CR.Text
+
+/-- text of one game as the generator writes it: `surgery (renderLit (gameLit …))`.  Labels arrive
+tagged: {"a": name} | {"i": int} | {"n": float repr}. -/
+def opGameText (j : Json) : Except String Json := do
+  let rewards ← (← getArr j "rewards").mapM (·.getInt?)
+  let players ← (← getArr j "players").mapM (·.getStr?)
+  let finals ← (← getArr j "finals").mapM (·.getNat?)
+  let tl ← (← getArr j "tl").mapM (fun row => do
+    let r ← row.getArr?
+    let l ← r.mapM (fun t => do
+      let a ← t.getArr?
+      if a.size ≠ 2 then throw "transition must have 2 fields"
+      let lab : Label ← match a[0]!.getObjVal? "a", a[0]!.getObjVal? "i", a[0]!.getObjVal? "n" with
+        | .ok v, _, _ => do pure (Label.act (← v.getStr?))
+        | _, .ok v, _ => do pure (Label.int (← v.getInt?))
+        | _, _, .ok v => do pure (Label.num (← v.getStr?))
+        | _, _, _ => throw "bad label"
+      pure (lab, ← a[1]!.getNat?))
+    pure l.toList)
+  let lit := gameLit rewards.toList players.toList tl.toList finals.toList
+  let plain := renderLit lit
+  pure (Json.mkObj [("outcome", "ok"), ("plain", Json.str (String.ofList plain)),
+    ("text", Json.str (String.ofList (surgery plain))),
+    ("game_ok", Json.bool (gameOK players.toList tl.toList))])
+
+/-- Python `s.replace(pat, rep)` and the four-replace chain on arbitrary text -/
+def opSurgery (j : Json) : Except String Json := do
+  let s ← getStr j "s"
+  let pat := (getStr j "pat").toOption
+  let rep := (getStr j "rep").toOption
+  match pat, rep with
+  | some p, some r => pure (Json.mkObj [("outcome", "ok"), ("res", Json.str (String.ofList (replaceAll p.toList r.toList s.toList)))])
+  | _, _ => pure (Json.mkObj [("outcome", "ok"), ("res", Json.str (String.ofList (surgery s.toList)))])
+
+end CR.Drv
+
 def handle (line : String) : Json :=
   match Json.parse line with
   | .error e => Json.mkObj [("outcome", "bad-request"), ("detail", Json.str e)]
@@ -414,6 +453,8 @@ def handle (line : String) : Json :=
       | "batch", _ => CR.Drv.opBatch j
       | "manualname", _ => CR.Drv.opManualName j
       | "report", _ => CR.Drv.opReport j
+      | "gametext", _ => CR.Drv.opGameText j
+      | "surgery", _ => CR.Drv.opSurgery j
       | "solve_seq", "float" => opSolveSeq floatCodec j
       | "solve_seq", _ => opSolveSeq ratCodec j
       | _, _ => throw s!"unknown op {op}"
